@@ -10,7 +10,7 @@ import sys
 from concurrent.futures import ThreadPoolExecutor
 
 VERIF = os.path.dirname(os.path.dirname(os.path.abspath(__file__)))
-ROOT = "/tmp/seedrun"
+ROOT = os.environ.get("SEEDRUN_ROOT", "/tmp/seedrun")
 PROPS = ["C%02d" % i for i in range(1, 21)]
 
 
